@@ -1,13 +1,103 @@
 """C18 — Message statistics equal what actually crossed the wire"""
+import z3
 from .session_prop import *
+from pyvc.values import SNum, SBytes, to_term
+from pyvc.contracts import Spec
 
 ID = 'C18'
+SENT_CODE = {'Opens': (1,), 'Updates': (2,), 'Notifications': (3,), 'Keepalives': (4,), 'RouteRefresh': (5, 128)}
+
+
+def direct_open_unit(u):
+    """`_open_received` in OpenConfirm / Established, where the RFC row of C01 is an open known finding (KF-C01-6/7: the
+    second OPEN is not ignored) and therefore does not describe what the code sends.  C18 is stated there directly:
+    each sent counter moves by the number of messages of its type written to the connection; the received-OPEN counter
+    moves by one (for a frame of at least the minimum OPEN length), no other received counter moves."""
+    import copy
+    d = copy.copy(u)
+    d.name = 'BGP._open_received[wire counters in OpenConfirm/Established]'
+    orig = u.build
+
+    def build(it):
+        r = orig(it)
+        S = r[3]
+        it.p.assume(z3.Or(S.st.t == 5, S.st.t == 6))
+        it._c18_S = S
+        return r
+
+    def spec(c, P, timestamp, msg):
+        S = c.it._c18_S
+        from contracts import protocol_rx as RX
+        from pyvc.contracts import Sim
+        RX.rx_requires(Sim(c), P)         # the session invariant holds on entry (as for every entry point)
+        sp = Spec()
+        # decode errors propagate to parse_buffer, which reports them (its own unit)
+        sp.may_raise = ('OpenMessageError', 'MessageHeaderError', 'OpaqueException')
+        sp.loop_abstract = True          # outcome and the clauses below only: the transition itself is C01's business
+        eff0 = len(c.it.p.effects)
+        sent0 = dict(S.P.f['msg_sent_stat'])
+        recv0 = dict(S.P.f['msg_recv_stat'])
+        mlen = SBytes.of(msg).len
+
+        def sent_clause(T):
+            def f():
+                n = z3.IntVal(0)
+                for e in c.it.p.effects[eff0:]:
+                    if e[0] == 'Write':
+                        b = SBytes.of(e[2])
+                        n = n + z3.If(z3.Or([b.at(18) == k for k in SENT_CODE[T]]), 1, 0)
+                return to_term(S.P.f['msg_sent_stat'][T]) - to_term(sent0[T]) == n
+            return f
+
+        def recv_clause(T):
+            def f():
+                want = z3.If(mlen >= 10, 1, 0) if T == 'Opens' else z3.IntVal(0)
+                return to_term(S.P.f['msg_recv_stat'][T]) - to_term(recv0[T]) == want
+            return f
+        sp.post = [('C18-wire/sent-%s' % T, sent_clause(T)) for T in SENT_CODE] + \
+                  [('C18-wire/recv-%s' % T, recv_clause(T)) for T in SENT_CODE]
+        return sp
+    d.build = build
+    d.spec = spec
+    d.clause_props = lambda name: ({ID} if ('C18-wire' in name or 'outcome' in name) else set())   # call-site Inv clauses there are C01's (KF-C01-6/7)
+    return d
 
 
 def run(tier, seed, only=None):
-    from contracts import session as CS
+    from . import session_units as SU
     lemmas = LEMMAS(ID)
-    return run_session(ID, tier, seed, only=only, select=lambda u: u.name.split('.')[0] == 'BGP' and u.name not in ('BGP.connectionMade', 'BGP.connectionLost', 'BGP.closeConnection', 'BGP.negotiate_hold_time'), lemmas=lemmas)
+    orig_all = globals()['all_session_units']
+
+    def units_for_c18(pid=None):
+        out = []
+        for u in orig_all(pid):
+            if u.name == 'BGP._open_received':
+                d = direct_open_unit(u)
+                ob = u.build
+
+                def build(it, ob=ob):
+                    r = ob(it)
+                    S = r[3]
+                    # the spec-derived statistics clauses are used where the C01 row describes the code
+                    it.p.assume(z3.Not(z3.Or(S.st.t == 5, S.st.t == 6)))
+                    return r
+                u.build = build
+                out += [u, d]
+            else:
+                out.append(u)
+        return out
+    import props.session_prop as SP_
+    saved = SP_.all_session_units
+    SP_.all_session_units = units_for_c18
+    try:
+        return run_session(ID, tier, seed, only=only,
+                           select=lambda u: u.name == 'BGPPeering.buildProtocol' or u.name.split('.')[0] == 'BGP' and u.name not in (
+                               'BGP.connectionMade', 'BGP.connectionLost', 'BGP.closeConnection', 'BGP.negotiate_hold_time'),
+                           lemmas=lemmas,
+                           assumptions=['`_open_received` in OpenConfirm / Established (open C01 findings KF-C01-6/7) is checked against the direct '
+                                        'wire-counter clauses, not against the RFC row'])
+    finally:
+        SP_.all_session_units = saved
 
 
 def LEMMAS(pid):
